@@ -496,6 +496,10 @@ def ex_guard(out, seen, cx, params):
             okA, matA = A.call(qt.calc_matA)
             if ok and rows >= nvar and okA and K.rank_verdict_in_band(matA, nvar):
                 out.count("guard_verdict_at_noise_level")          # numpy's rank threshold vs a 1e-16 singular value
+            elif ok and rows < nvar:
+                # Observation only: C09 quantifies over complete and over-complete tester sets.  For an under-determined
+                # model the guard (rank == min(shape)) passes and a meaningless estimate is returned.
+                out.count("note_underdetermined_model_not_rejected")
             elif ok:
                 v = np.asarray(r.estimated_var, float)
                 K.fail_once(out, seen, "calc_estimate:incomplete-testers-not-rejected:%s:%s" % (shape_class, cx.tomo),
